@@ -501,17 +501,18 @@ mutual
     | .flex e => e.ok r
     | .struct p al ms => ms.ok r && alignedOk al && (!r || (!PackedWithBitfield p (specMembers ms) && !PackedWithMemberAlign p (specMembers ms)))
     | .union p al ms => ms.ok r && alignedOk al && (!r || (!PackedUnionBitfield p (specMembers ms) && !PackedWithMemberAlign p (specMembers ms)))
+  def Aligns.ok (r : Bool) : Aligns → Bool
+    | .nil => true
+    | .const n rest => decide (0 ≤ n) && rest.ok r
+    | .type t rest => t.ok r && rest.ok r
   def Members.ok (r : Bool) : Members → Bool
     | .nil => true
-    | .cons d ty rest =>
-      ty.ok r && rest.ok r && decide (0 ≤ d.alignas) &&
+    | .cons d as ty rest =>
+      ty.ok r && rest.ok r && as.ok r &&
       (match d.bitWidth with
        | none => true
-       | some w => isBitfieldBase ty && d.alignas == 0 && decide (0 ≤ w) && decide (w ≤ 8 * (specSizeAlign ty).1) &&
-                   (!d.named || decide (0 < w)))
-    | .consT d aty ty rest =>
-      -- `_Alignas(type-name)`; never on a bit-field (C11 6.7.5p2)
-      aty.ok r && ty.ok r && rest.ok r && d.bitWidth.isNone
+       | some w => isBitfieldBase ty && specAligns as == 0 && decide (0 ≤ w) && decide (w ≤ 8 * (specSizeAlign ty).1) &&
+                   (!d.named || decide (0 < w)))     -- no `_Alignas` on a bit-field (C11 6.7.5p2)
 end
 
 theorem prim_eq (t : TyName) : primSize t = ((psabiScalar t).1 : Nat) ∧ primAlign t = ((psabiScalar t).2 : Nat) ∧
@@ -597,38 +598,60 @@ mutual
         | none => simp
         | some n => simpa using hc.2 n h'
       exact Nat.lt_of_lt_of_le ha0 (aggAlign_ge ..)
+  theorem as_eq : ∀ (as : Aligns), as.ok true = true → ∀ acc : Nat,
+      as.eval (acc : Int) = .ok (((max acc (specAligns as) : Nat)) : Int)
+    | .nil, _, acc => by simp [Aligns.eval, specAligns]
+    | .const n rest, h, acc => by
+      simp only [Aligns.ok, Bool.and_eq_true, decide_eq_true_eq] at h
+      have ih := as_eq rest h.2 (max acc n.toNat)
+      have hc : alignasCombine (acc : Int) (alignasOfConst n) = ((max acc n.toNat : Nat) : Int) := by
+        simp only [alignasCombine, alignasOfConst, Nat.max_def]
+        by_cases h1 : (acc : Int) < n <;> by_cases h2 : acc ≤ n.toNat <;> simp only [h1, h2, if_true, if_false] <;> omega
+      simp only [Aligns.eval, hc, ih, specAligns, Nat.max_assoc]
+    | .type t rest, h, acc => by
+      simp only [Aligns.ok, Bool.and_eq_true] at h
+      have iht := ty_eq t h.1
+      have ih := as_eq rest h.2 (max acc (specSizeAlign t).2)
+      have hc : alignasCombine (acc : Int) (alignasOfType ((specSizeAlign t).1 : Nat) ((specSizeAlign t).2 : Nat)) =
+          ((max acc (specSizeAlign t).2 : Nat) : Int) := by
+        simp only [alignasCombine, alignasOfType, Nat.max_def]
+        by_cases h1 : ((acc : Nat) : Int) < (((specSizeAlign t).2 : Nat) : Int) <;> by_cases h2 : acc ≤ (specSizeAlign t).2 <;>
+          simp only [h1, h2, if_true, if_false] <;> omega
+      simp only [Aligns.eval, iht.1, bind, Except.bind, hc, ih, specAligns, Nat.max_assoc]
   theorem ms_eq : ∀ (ms : Members), ms.ok true = true →
       ms.toMems = .ok ((specMembers ms).map SMem.toMem) ∧ ∀ m ∈ specMembers ms, m.WF
     | .nil, _ => by
       refine ⟨rfl, ?_⟩
       intro m hm
       simp [specMembers] at hm
-    | .cons d ty rest, h => by
-      simp only [Members.ok, Bool.and_eq_true, decide_eq_true_eq] at h
-      obtain ⟨⟨⟨hty, hrest⟩, haa⟩, hbf⟩ := h
+    | .cons d as ty rest, h => by
+      simp only [Members.ok, Bool.and_eq_true] at h
+      obtain ⟨⟨⟨hty, hrest⟩, has⟩, hbf⟩ := h
       have ih1 := ty_eq ty hty
       have ih2 := ms_eq rest hrest
-      have hsm : specMembers (.cons d ty rest) =
-          { size := (specSizeAlign ty).1, tyAlign := (specSizeAlign ty).2, alignas := d.alignas.toNat,
+      have iha := as_eq as has 0
+      simp only [Nat.zero_max, Int.natCast_zero] at iha
+      have hsm : specMembers (.cons d as ty rest) =
+          { size := (specSizeAlign ty).1, tyAlign := (specSizeAlign ty).2, alignas := specAligns as,
             bitWidth := d.bitWidth.map Int.toNat, named := d.named } :: specMembers rest := by
         simp [specMembers]
-      have hal : ((if d.alignas.toNat ≠ 0 then d.alignas.toNat else (specSizeAlign ty).2 : Nat) : Int) =
-          (if d.alignas ≠ 0 then d.alignas else (((specSizeAlign ty).2 : Nat) : Int)) := by
-        by_cases h0 : d.alignas = 0
+      have hal : memberAlign ((specAligns as : Nat) : Int) (((specSizeAlign ty).2 : Nat) : Int) =
+          ((if specAligns as ≠ 0 then specAligns as else (specSizeAlign ty).2 : Nat) : Int) := by
+        unfold memberAlign
+        by_cases h0 : specAligns as = 0
         · simp [h0]
-        · have : d.alignas.toNat ≠ 0 := by omega
-          simp only [ne_eq, h0, this, not_false_eq_true, if_true]
-          omega
+        · have : ¬ ((specAligns as : Nat) : Int) = 0 := by omega
+          simp [h0, this]
       constructor
-      · simp only [Members.toMems, memberAlign, alignasOfConst, ih1.1, ih2.1, bind, Except.bind, pure, Except.pure, hsm,
+      · simp only [Members.toMems, iha, ih1.1, ih2.1, bind, Except.bind, pure, Except.pure, hsm,
           List.map_cons, SMem.toMem, Except.ok.injEq, List.cons.injEq, and_true, Mem.mk.injEq, hal, true_and]
         cases hb : d.bitWidth with
-        | none => by_cases h0 : d.alignas = 0 <;> simp [h0]
+        | none => simp
         | some w =>
           rw [hb] at hbf
           simp only [Bool.and_eq_true, decide_eq_true_eq] at hbf
           have : ((w.toNat : Nat) : Int) = w := Int.toNat_of_nonneg hbf.1.1.2
-          by_cases h0 : d.alignas = 0 <;> simp [this, h0]
+          simp [this]
       · intro m hm
         rw [hsm] at hm
         rcases List.mem_cons.mp hm with rfl | hm'
@@ -641,36 +664,13 @@ mutual
             obtain ⟨⟨⟨⟨hbase, ha0⟩, hw0⟩, hw8⟩, hnm⟩ := hbf
             have hp := bitfieldBase_props hbase
             simp only [Option.map_some]
-            refine ⟨hp.1, by omega, hp.2, by omega, ?_⟩
+            refine ⟨hp.1, ha0, hp.2, by omega, ?_⟩
             intro hn
             rcases hnm with hnm | hnm
             · rw [hn] at hnm; cases hnm
             · omega
         · exact ih2.2 m hm'
-    | .consT d aty ty rest, h => by
-      simp only [Members.ok, Bool.and_eq_true, Option.isNone_iff_eq_none] at h
-      obtain ⟨⟨⟨haty, hty⟩, hrest⟩, hbw⟩ := h
-      have iha := ty_eq aty haty
-      have ih1 := ty_eq ty hty
-      have ih2 := ms_eq rest hrest
-      have hsm : specMembers (.consT d aty ty rest) =
-          { size := (specSizeAlign ty).1, tyAlign := (specSizeAlign ty).2, alignas := (specSizeAlign aty).2,
-            bitWidth := d.bitWidth.map Int.toNat, named := d.named } :: specMembers rest := by
-        simp [specMembers]
-      have hne : (specSizeAlign aty).2 ≠ 0 := by have := iha.2; omega
-      have hne' : ¬ (((specSizeAlign aty).2 : Nat) : Int) = 0 := by omega
-      constructor
-      · simp only [Members.toMems, memberAlign, alignasOfType, iha.1, ih1.1, ih2.1, bind, Except.bind, pure, Except.pure,
-          hsm, List.map_cons, SMem.toMem, Except.ok.injEq, List.cons.injEq, and_true, Mem.mk.injEq, true_and, hbw,
-          Option.map_none, ne_eq, hne, hne', not_false_eq_true, if_true]
-      · intro m hm
-        rw [hsm] at hm
-        rcases List.mem_cons.mp hm with rfl | hm'
-        · refine ⟨ih1.2, ?_⟩
-          simp [hbw]
-        · exact ih2.2 m hm'
 end
-
 
 /-- whole types: the layout the model computes for a well-formed, in-scope type description is the spec's -/
 theorem layout_eq (t : Ty) (h : t.ok true = true) : t.layout = .ok (specTy t).toLayout := by
